@@ -827,7 +827,7 @@ class Node:
             self._reconnect_peers()
 
     def _receive_message(self, conn: PeerConnection, msg: _AnyMessageType):
-        if hasattr(msg, "origin_host"):
+        if msg.header.is_request and hasattr(msg, "origin_host"):
             # Record who originally sent a request, as this information is lost
             # by the time an answer will go out
             message_id = (f"{msg.header.hop_by_hop_identifier}:"
